@@ -191,13 +191,13 @@ def parseSg (line0 : Str) : Option SgLine :=
       | ([], _) => none
       | (t, r2) => (parseTag t).bind fun tag => parseSgTail name tag false r2
 
-/-- `^BO_ ([^\ ]+) ([^\ ]+) *: *([^\ ]+) ([^\ ]+)` with `int()` on groups 1 and 3 and `.split()` on group 4 -/
+/-- `^BO_ +([^\ ]+) +([^\ ]+) *: *([^\ ]+) +([^\ ]+)` with `int()` on groups 1 and 3 and `.split()` on group 4 -/
 def parseBo (line : Str) : Option BoLine :=
   if !startsWith line "BO_ ".toList then none else
-  match (line.drop 4).span (· != ' ') with
+  match (skipSp (line.drop 3)).span (· != ' ') with
   | ([], _) => none
   | (idS, ' ' :: r1) =>
-    match r1.span (fun c => c != ' ' && c != ':') with
+    match (skipSp r1).span (fun c => c != ' ' && c != ':') with
     | ([], _) => none
     | (name, r2) =>
       match skipSp r2 with
@@ -205,7 +205,7 @@ def parseBo (line : Str) : Option BoLine :=
         match (skipSp r3).span (· != ' ') with
         | ([], _) => none
         | (szS, ' ' :: r4) =>
-          match r4.span (· != ' ') with
+          match (skipSp r4).span (· != ' ') with
           | ([], _) => none
           | (tx, _) =>
             (digitsToNat idS).bind fun id => (digitsToNat szS).map fun size =>
@@ -232,6 +232,106 @@ def framesReader : Reader (List Block) where
     | _ => .ok st
 
 def readFrames (lines : List Str) : List Block := loadLines framesReader [] lines
+
+/-! ## lexical freedom of the format (C15): several blanks between the tokens, any admissible rendering of a number -/
+
+def sps (n : Nat) : Str := List.replicate n ' '
+
+/-- blank counts of an `SG_` line: `lead` before the keyword, `kw` after it (≥ 1), `nameTag` between name and tag (≥ 1, tagged lines
+only), `preColon` before the colon, `postColon` after it, `preParen` before `(`, `postComma` after the comma between factor and
+offset (untagged lines only), `preBracket` before `[`, `preUnit` before the unit (≥ 1), `preRx` before the receivers (≥ 1),
+`rx` after each comma of the receiver list -/
+structure SgLex where
+  lead : Nat := 1
+  kw : Nat := 1
+  nameTag : Nat := 1
+  preColon : Nat := 1
+  postColon : Nat := 1
+  preParen : Nat := 1
+  postComma : Nat := 0
+  preBracket : Nat := 1
+  preUnit : Nat := 1
+  preRx : Nat := 1
+  rx : Nat := 0
+  deriving Repr, DecidableEq, Inhabited
+
+/-- the four numbers of an `SG_` line as they stand in the file -/
+structure SgNums where
+  factor : Str
+  offset : Str
+  min : Str
+  max : Str
+  deriving Repr, DecidableEq, Inhabited
+
+def lexTag (lx : SgLex) : Tag → Str
+  | .none => sps lx.preColon
+  | .muxer => sps lx.nameTag ++ 'M' :: sps lx.preColon
+  | .val k => sps lx.nameTag ++ 'm' :: natDigits k ++ sps lx.preColon
+  | .valMuxer k => sps lx.nameTag ++ 'm' :: natDigits k ++ 'M' :: sps lx.preColon
+
+def joinCommaSp (n : Nat) : List Str → Str
+  | [] => []
+  | [a] => a
+  | a :: b :: r => a ++ ',' :: sps n ++ joinCommaSp n (b :: r)
+
+def renderSgLex (lx : SgLex) (nm : SgNums) (s : SgLine) : Str :=
+  sps lx.lead ++ "SG_".toList ++ sps lx.kw ++ s.name ++ lexTag lx s.tag ++ ':' :: sps lx.postColon ++
+  natDigits s.start ++ '|' :: natDigits s.size ++ '@' :: (if s.little then '1' else '0') :: (if s.signed then '-' else '+') ::
+  sps lx.preParen ++ '(' :: nm.factor ++ ',' :: sps lx.postComma ++ nm.offset ++ ')' :: sps lx.preBracket ++ '[' :: nm.min ++
+  '|' :: nm.max ++ ']' :: sps lx.preUnit ++ '"' :: s.unit ++ '"' :: sps lx.preRx ++ joinCommaSp lx.rx s.receivers
+
+/-- a number text the statement patterns accept and `Decimal` understands -/
+def validNum (t : Str) : Bool := !t.isEmpty && t.all isNumChar && (strToDec t).isSome
+
+def lexOk (lx : SgLex) (nm : SgNums) (tag : Tag) : Bool :=
+  1 ≤ lx.kw && 1 ≤ lx.preUnit && 1 ≤ lx.preRx && (tag == .none || (1 ≤ lx.nameTag && lx.postComma == 0)) &&
+  validNum nm.factor && validNum nm.offset && validNum nm.min && validNum nm.max
+
+/-- the signal with the numbers as they stand in the file -/
+def withNums (nm : SgNums) (s : SgLine) : SgLine :=
+  { s with factor := (strToDec nm.factor).getD s.factor, offset := (strToDec nm.offset).getD s.offset,
+           min := (strToDec nm.min).getD s.min, max := (strToDec nm.max).getD s.max }
+
+structure BoLex where
+  kw : Nat := 1
+  idName : Nat := 1
+  preColon : Nat := 0
+  postColon : Nat := 1
+  preTx : Nat := 1
+  deriving Repr, DecidableEq, Inhabited
+
+def renderBoLex (lx : BoLex) (b : BoLine) : Str :=
+  "BO_".toList ++ sps lx.kw ++ natDigits b.id ++ sps lx.idName ++ b.name ++ sps lx.preColon ++ ':' :: sps lx.postColon ++
+  natDigits b.size ++ sps lx.preTx ++ b.transmitter
+
+def boLexOk (lx : BoLex) : Bool := 1 ≤ lx.kw && 1 ≤ lx.idName && 1 ≤ lx.preTx
+
+/-- a number written as `[sign] int-digits [. frac-digits] [E [sign] exp-digits]` -/
+structure NumText where
+  neg : Bool := false
+  plus : Bool := false          -- explicit `+` (only when not negative)
+  ip : Str
+  fp : Option Str := none       -- digits after the point, if there is a point
+  exp : Option (Bool × Bool × Str) := none   -- (lower-case e, negative, digits)
+  deriving Repr, DecidableEq, Inhabited
+
+def NumText.render (n : NumText) : Str :=
+  (if n.neg then ['-'] else if n.plus then ['+'] else []) ++ n.ip ++
+  (match n.fp with | some f => '.' :: f | none => []) ++
+  (match n.exp with | some (lower, neg, ds) => (if lower then 'e' else 'E') :: (if neg then ['-'] else []) ++ ds | none => [])
+
+def allDigits (s : Str) : Bool := s.all isDigit
+
+def NumText.wf (n : NumText) : Bool :=
+  allDigits n.ip && (n.fp.getD []).all isDigit && !(n.ip.isEmpty && (n.fp.getD []).isEmpty) &&
+  (match n.exp with | some (_, _, ds) => !ds.isEmpty && allDigits ds | none => true)
+
+/-- the value a number text denotes: digits of integer and fraction part as coefficient, exponent minus the fraction length -/
+def NumText.denotes (n : NumText) : Option Dec :=
+  (digitsToNat (n.ip ++ n.fp.getD [])).bind fun c =>
+  (match n.exp with
+   | some (_, neg, ds) => (digitsToNat ds).map fun e => if neg then -(e : Int) else (e : Int)
+   | none => some 0).map fun e => ⟨n.neg, c, e - ((n.fp.getD []).length : Int)⟩
 
 /-! ## what comes back -/
 
